@@ -324,6 +324,14 @@ class Codec(ABC):
         @staticmethod
         def output_key_for_override_key(override_key: str) -> Optional[DataSourceKey]:
             """Converts an override key to the key at which it should be stored"""
+            if override_key and override_key.split("/", 1)[0] == "c":
+                # Objects under "c/" are addressed by the hash of their content and shared
+                # between results: an arbitrary object stored there would be taken for the
+                # content that hashes to its name.
+                raise ValueError(
+                    "Key override '{}' is not allowed: 'c/' is reserved for "
+                    "content-addressed objects".format(override_key)
+                )
             return DataSourceKey(override_key) if override_key else None
 
     class NullStrategy(Strategy):
